@@ -31,6 +31,13 @@ pub struct Sys {
     /// a task claimed by hand (`claim` op) and not yet finished
     pub claimed: std::sync::Mutex<Option<(Box<Ident>, String)>>,
     pub t0: i64,
+    /// C06 (`sk=1`): the observation lists every stored command / change set of every aggregate as a
+    /// shape skeleton (`stored`), and `reloadcheck` also covers the publication server and the
+    /// signer-info / properties aggregates
+    pub sk: bool,
+    pub stored_seen: HashMap<String, u64>,
+    /// what was stored while the instance was set up (before the first op), reported once as `stored_boot`
+    pub boot_stored: Vec<Value>,
     _rt: tokio::runtime::Runtime,
     #[allow(dead_code)]
     scratch: Scratch,
@@ -170,12 +177,16 @@ impl Sys {
         let router_csr = BgpsecCsr::decode(
             std::fs::read("/repo/test-resources/bgpsec/router-csr.der").expect("router csr").as_ref()
         ).expect("csr");
+        let sk = cfg.get("sk").map(|s| s != "0").unwrap_or(false);
+        let mut stored_seen = HashMap::new();
+        let boot_stored = if sk { stored_since(krill.storage(), &mut stored_seen) } else { vec![] };
         Sys {
             krill, actor, canon: Canon::default(), seen_cmds: HashMap::new(), router_csr,
             full_obs: cfg.get("obs").map(|s| s != "min").unwrap_or(true),
             rp_on: cfg.get("rp").map(|s| s != "0").unwrap_or(true),
             claimed: std::sync::Mutex::new(None),
             t0: unix_now(),
+            sk, stored_seen, boot_stored,
             _rt: rt, scratch,
         }
     }
@@ -348,7 +359,146 @@ impl Sys {
                     let live = vec![("ta".to_string(), serde_json::to_value(&*p).unwrap_or(Value::Null))];
                     diffs.extend(self.reload_diff::<krill::tasigner::TrustAnchorSigner>("ta_signer", &live));
                 }
+                if self.sk {
+                    diffs.extend(self.reload_diff_rest());
+                }
                 if diffs.is_empty() { Ok(format!("ok:same:{}", live.len())) } else { Ok(format!("ok:diff:{}", diffs.join(";"))) }
+            }
+            // ---- C06 coverage ops (additive): command kinds no other op produces
+            // the child re-registers the parent's current RFC 8183 response (after `updateid <parent>`:
+            // UpdateParentContact)
+            ["parentupd", ca, parent] => {
+                let ph = ParentHandle::from_str(parent).unwrap();
+                let response = cm.ca_parent_response(&ph.convert(), h(ca).convert(), krill.service_uri())?;
+                cm.ca_parent_add_or_update(h(ca), api::admin::ParentCaReq { handle: ph, response }, actor, rt)?;
+                Ok("ok".into())
+            }
+            // export the child, remove it, import it again (the import API of the daemon: ChildImport)
+            ["childreimport", parent, child] => {
+                let ch = ChildHandle::from_str(child).unwrap();
+                let exp = cm.ca_child_export(&h(parent), &ch)?;
+                cm.ca_child_remove(&h(parent), ch, actor, rt)?;
+                cm.ca_child_import(&h(parent), exp, actor, rt)?;
+                Ok("ok".into())
+            }
+            // aspaprov <ca> <customer atom> +P -P …   (providers literal AS numbers): AspasUpdateExisting
+            ["aspaprov", ca, customer, rest @ ..] => {
+                let mut added = vec![];
+                let mut removed = vec![];
+                for x in rest {
+                    if let Some(p) = x.strip_prefix('+') { added.push(Asn::from_u32(p.parse().expect("provider"))); }
+                    else if let Some(p) = x.strip_prefix('-') { removed.push(Asn::from_u32(p.parse().expect("provider"))); }
+                }
+                let customer = Asn::from_u32(64512 + customer.parse::<u32>().expect("customer"));
+                cm.ca_aspas_update_aspa_providers(h(ca), customer, api::aspa::AspaProvidersUpdate { added, removed }, actor, rt)?;
+                Ok("ok".into())
+            }
+            // childx <parent|ta> <child> <asn|-> <v4|-> <v6|->   like `child` with an explicit resource set
+            ["childx", parent, child, asn, v4, v6] => {
+                let ph = ParentHandle::from_str(parent).unwrap();
+                let ch = h(child);
+                let c = cm.get_ca(&ch)?;
+                let id_cert = c.child_request().validate().map_err(Error::rfc8183)?;
+                let f = |s: &str| if s == "-" { String::new() } else { s.to_string() };
+                let resources = ResourceSet::from_strs(&f(asn), &f(v4), &f(v6)).map_err(|e| Error::custom(e.to_string()))?;
+                let req = api::admin::AddChildRequest { handle: ch.convert(), resources, id_cert };
+                let response = cm.ca_add_child(&ph.convert(), req, actor, rt)?;
+                cm.ca_parent_add_or_update(ch, api::admin::ParentCaReq { handle: ph, response }, actor, rt)?;
+                Ok("ok".into())
+            }
+            // roax <ca> +<payload text> -<payload text> …   the text as the API takes it, `_` for a blank
+            // (`+::ffff:0:0/96_=>_64496`); `parse-error` when `RoaPayload::from_str` refuses it
+            ["roax", ca, rest @ ..] => {
+                let mut added = vec![];
+                let mut removed = vec![];
+                for x in rest {
+                    let (add, text) = match (x.strip_prefix('+'), x.strip_prefix('-')) {
+                        (Some(t), _) => (true, t), (_, Some(t)) => (false, t), _ => panic!("roax {x}"),
+                    };
+                    let Ok(p) = RoaPayload::from_str(&text.replace('_', " ")) else { return Ok("parse-error".into()) };
+                    if add {
+                        added.push(RoaConfiguration::from(p));
+                    } else {
+                        removed.push(p);
+                    }
+                }
+                cm.ca_routes_update(h(ca), RoaConfigurationUpdates { added, removed }, actor, rt)?;
+                Ok("ok".into())
+            }
+            // ROAs re-issued regardless of their age (what the upgrade code calls through
+            // `force_renew_roas_all`: ForceReissue)
+            ["forcerenew"] => {
+                cm.force_renew_roas_all(actor, rt)?;
+                Ok("ok".into())
+            }
+            // the publication server's RRDP session is reset (SessionReset change)
+            ["rrdpreset"] => {
+                krill.repo_manager().rrdp_session_reset()?;
+                Ok("ok".into())
+            }
+            // resource tagged attestations through the CaManager functions (no route of the daemon calls them):
+            // rta prep <ca> <name> <atoms> | rta sign <ca> <name> <atoms> [keysof=<ca>/<name>] | rta cosign <ca> <name> <ca>/<name>
+            ["rta", what, ca, name, rest @ ..] => {
+                use rpki::repository::x509::{Time, Validity};
+                let validity = Validity::new(Time::now(), Time::tomorrow());
+                match *what {
+                    "prep" => {
+                        let resources = atoms_to_resources(&parse_atoms(rest.first().copied().unwrap_or("-")));
+                        cm.rta_multi_prep(&h(ca), name.to_string(), api::rta::RtaPrepareRequest { resources, validity }, actor, rt)?;
+                    }
+                    "sign" => {
+                        let resources = atoms_to_resources(&parse_atoms(rest.first().copied().unwrap_or("-")));
+                        let mut subject_keys = vec![];
+                        if let Some((oca, oname)) = rest.get(1).and_then(|x| x.strip_prefix("keysof=")).and_then(|x| x.split_once('/')) {
+                            let resp = cm.get_ca(&h(oca))?.rta_prep_response(oname)?;
+                            let v = serde_json::to_value(&resp).unwrap_or(Value::Null);
+                            fn keys(v: &Value, out: &mut Vec<rpki::crypto::KeyIdentifier>) {
+                                match v {
+                                    Value::String(s) => if let Ok(k) = rpki::crypto::KeyIdentifier::from_str(s) { out.push(k) },
+                                    Value::Array(a) => a.iter().for_each(|x| keys(x, out)),
+                                    Value::Object(m) => m.values().for_each(|x| keys(x, out)),
+                                    _ => {}
+                                }
+                            }
+                            keys(&v, &mut subject_keys);
+                        }
+                        let request = api::rta::RtaContentRequest {
+                            resources, validity, subject_keys, content: bytes::Bytes::from_static(b"verif rta content"),
+                        };
+                        cm.rta_sign(h(ca), name.to_string(), request, actor, rt)?;
+                    }
+                    "cosign" => {
+                        let (oca, oname) = rest.first().and_then(|x| x.split_once('/')).expect("rta cosign <ca> <name> <ca>/<name>");
+                        let rta = cm.get_ca(&h(oca))?.rta_show(oname)?;
+                        cm.rta_multi_cosign(h(ca), name.to_string(), rta, actor, rt)?;
+                    }
+                    _ => panic!("rta {what}"),
+                }
+                Ok("ok".into())
+            }
+            // What a restart of the daemon finds: a second runtime on the same storage (as `KrillRuntime::new`
+            // at start-up builds it), then every CA is asked for. `ok:<n cas>` or the first failure.
+            ["restartcheck"] => {
+                let config = krill.config().clone();
+                if config.storage_uri.data_dir().is_none() {
+                    // a memory store is private to its StorageSystem object: nothing to restart on
+                    return Ok("skip:memory".into());
+                }
+                let storage = StorageSystem::new(config.storage_uri.clone());
+                let second = match KrillRuntime::new(config, storage, self._rt.handle().clone()) {
+                    Ok(r) => r,
+                    Err(e) => return Ok(format!("fatal:runtime:{}", format!("{e}").chars().take(160).collect::<String>().replace(char::is_whitespace, "_"))),
+                };
+                let mut handles = cm.ca_handles().unwrap_or_default();
+                handles.sort_by_key(|h| h.to_string());
+                let listed = second.ca_manager().ca_handles().map(|v| v.len()).unwrap_or(usize::MAX);
+                let mut bad = vec![];
+                for hd in &handles {
+                    if let Err(e) = second.ca_manager().get_ca(hd) {
+                        bad.push(format!("{hd}:{}", err_kind(&e)));
+                    }
+                }
+                if bad.is_empty() { Ok(format!("ok:{}:{listed}", handles.len())) } else { Ok(format!("unloadable:{}:listed={listed}", bad.join(","))) }
             }
             ["pubrm", ca] => {
                 // the admin removes the CA's publisher at the publication server
@@ -576,7 +726,10 @@ impl Sys {
         let res = std::panic::catch_unwind(std::panic::AssertUnwindSafe(|| self.run_op(&w)));
         let ret = match res {
             Ok(Ok(s)) => s,
-            Ok(Err(e)) => format!("err:{}", err_kind(&e)),
+            Ok(Err(e)) => {
+                if std::env::var_os("KVERIF_DEBUG").is_some() { eprintln!("{op}: {e}"); }
+                format!("err:{}", err_kind(&e))
+            }
             Err(p) => {
                 let msg = p.downcast_ref::<String>().cloned()
                     .or_else(|| p.downcast_ref::<&str>().map(|s| s.to_string())).unwrap_or_default();
@@ -662,6 +815,91 @@ impl Sys {
             for sc in dst.scopes().unwrap_or_default() {
                 let _ = dst.drop_scope(&sc);
             }
+        }
+        out
+    }
+
+    /// C06, the aggregates beside the CAs and the trust anchor: the publication server's access
+    /// aggregate (fresh store object vs replay of the stored commands alone, and what a second
+    /// `RepositoryManager` on the same storage reports through the API vs the running one), its
+    /// content (write-ahead log: a fresh store object = snapshot + later change sets vs the running
+    /// one, the whole serde state), the signer-info and properties aggregates (fresh vs commands alone).
+    fn reload_diff_rest(&self) -> Vec<String> {
+        let mut out = vec![];
+        out.extend(self.reload_pair::<krill::server::pubd::RepositoryAccess>("pubd"));
+        out.extend(self.reload_pair::<krill::commons::crypto::dispatch::signerinfo::SignerInfo>("signers"));
+        out.extend(self.reload_pair::<krill::server::properties::Properties>("properties"));
+        let live = self.krill.repo_manager();
+        match std::panic::catch_unwind(std::panic::AssertUnwindSafe(|| {
+            krill::server::pubd::RepositoryManager::new(self.krill.config(), self.krill.storage())
+        })) {
+            Err(_) => out.push("pubd_objects/0:fresh:PANIC".into()),
+            Ok(Err(_)) => out.push("pubd_objects/0:fresh:load-error".into()),
+            Ok(Ok(fresh)) => {
+                match (live.verif_content_state_json(), fresh.verif_content_state_json()) {
+                    (Ok(a), Ok(b)) => {
+                        // lists built from hash maps at apply time (the elements of an RRDP delta, the current
+                        // files) come in the order of the process that built them: compared as multisets
+                        if let Some(p) = json_first_diff(&sorted_arrays(&a), &sorted_arrays(&b), "") { out.push(format!("pubd_objects/0:fresh:{p}")); }
+                    }
+                    (Ok(_), Err(_)) => out.push("pubd_objects/0:fresh:load-error".into()),
+                    _ => {}
+                }
+                let view = |m: &krill::server::pubd::RepositoryManager| -> Value {
+                    let mut ps = m.publishers().unwrap_or_default();
+                    ps.sort_by_key(|p| p.to_string());
+                    Value::Array(ps.into_iter().map(|p| {
+                        let d = m.get_publisher_details(p.clone()).ok().and_then(|d| serde_json::to_value(&d).ok()).unwrap_or(Value::Null);
+                        json!([p.to_string(), d])
+                    }).collect())
+                };
+                if let Some(p) = json_first_diff(&sorted_arrays(&view(live)), &sorted_arrays(&view(&fresh)), "") { out.push(format!("pubd/0:api:{p}")); }
+            }
+        }
+        out
+    }
+
+    /// Every aggregate of namespace `ns`: what a fresh store object loads (snapshot + later
+    /// commands) against a replay of the stored commands alone.
+    fn reload_pair<A: krill::commons::eventsourcing::Aggregate + serde::Serialize>(&self, ns: &str) -> Vec<String> {
+        use krill::commons::eventsourcing::AggregateStore;
+        static COPY: std::sync::atomic::AtomicU64 = std::sync::atomic::AtomicU64::new(0);
+        let mut out = vec![];
+        let storage = self.krill.storage();
+        let nsid = Ident::boxed_from_string(ns.to_string()).unwrap();
+        let copyid = Ident::boxed_from_string(format!("verifpair{}{}", COPY.fetch_add(1, std::sync::atomic::Ordering::SeqCst), ns.replace('_', ""))).unwrap();
+        let mut scopes = vec![];
+        if let (Ok(src), Ok(dst)) = (storage.open(&nsid), storage.open(&copyid)) {
+            for sc in src.scopes().unwrap_or_default() {
+                let mut any = false;
+                for k in src.keys(Some(&sc), "command-").unwrap_or_default() {
+                    let v: Option<Value> = src.get(Some(&sc), &k).unwrap_or(None);
+                    if let Some(v) = v { let _ = dst.store(Some(&sc), &k, &v); any = true; }
+                }
+                if any { scopes.push(sc.as_str().to_string()); }
+            }
+        }
+        let fresh = AggregateStore::<A>::create(storage, &nsid, false);
+        let scratch = AggregateStore::<A>::create(storage, &copyid, false);
+        if let (Ok(fresh), Ok(scratch)) = (&fresh, &scratch) {
+            for hd in &scopes {
+                let Ok(handle) = rpki::ca::idexchange::MyHandle::from_str(hd) else { continue };
+                let load = |st: &AggregateStore<A>| match std::panic::catch_unwind(std::panic::AssertUnwindSafe(|| st.get_latest(&handle))) {
+                    Err(_) => Err("PANIC"),
+                    Ok(Err(_)) => Err("load-error"),
+                    Ok(Ok(a)) => Ok(serde_json::to_value(&*a).unwrap_or(Value::Null)),
+                };
+                match (load(fresh), load(scratch)) {
+                    (Err(e), _) => out.push(format!("{ns}/{hd}:snapshot:{e}")),
+                    (_, Err(e)) => out.push(format!("{ns}/{hd}:scratch:{e}")),
+                    (Ok(a), Ok(b)) => if let Some(p) = json_first_diff(&a, &b, "") { out.push(format!("{ns}/{hd}:scratch:{p}")); },
+                }
+            }
+        } else {
+            out.push(format!("{ns}/-:store-error"));
+        }
+        if let Ok(dst) = storage.open(&copyid) {
+            for sc in dst.scopes().unwrap_or_default() { let _ = dst.drop_scope(&sc); }
         }
         out
     }
@@ -783,6 +1021,13 @@ impl Sys {
         o.insert("cmds".into(), Value::Array(self.new_cmds()));
         o.insert("t0".into(), Value::Number(self.t0.into()));
         o.insert("now".into(), Value::Number(unix_now().into()));
+        if self.sk {
+            if !self.boot_stored.is_empty() {
+                o.insert("stored_boot".into(), Value::Array(std::mem::take(&mut self.boot_stored)));
+            }
+            let st = stored_since(self.krill.storage(), &mut self.stored_seen);
+            o.insert("stored".into(), Value::Array(st));
+        }
         if !self.full_obs {
             return Value::Object(o);
         }
@@ -910,4 +1155,82 @@ pub fn json_first_diff(a: &Value, b: &Value, path: &str) -> Option<String> {
         }
         _ => if a == b { None } else { Some(path.to_string()) },
     }
+}
+
+
+/// The value with every array sorted by the JSON text of its (sorted) elements.
+#[allow(dead_code)]
+pub fn sorted_arrays(v: &Value) -> Value {
+    match v {
+        Value::Array(a) => {
+            let mut items: Vec<Value> = a.iter().map(sorted_arrays).collect();
+            items.sort_by_key(|x| x.to_string());
+            Value::Array(items)
+        }
+        Value::Object(m) => Value::Object(m.iter().map(|(k, x)| (k.clone(), sorted_arrays(x))).collect()),
+        other => other.clone(),
+    }
+}
+
+/// The shape of a stored JSON value: numbers become 0, strings "" (the enum tag `type` and a bare
+/// string at the top - a unit variant - are kept), arrays keep their first element only, objects
+/// keep every key.  Enough to tell which variant it is and which optional / collection fields are
+/// absent, null, empty or not.
+#[allow(dead_code)]
+pub fn skeleton(v: &Value, top: bool) -> Value {
+    match v {
+        Value::Null | Value::Bool(_) => v.clone(),
+        Value::Number(_) => json!(0),
+        Value::String(s) => if top { v.clone() } else { let _ = s; json!("") },
+        Value::Array(a) => Value::Array(a.first().map(|x| vec![skeleton(x, false)]).unwrap_or_default()),
+        Value::Object(m) => Value::Object(m.iter().map(|(k, x)| {
+            (k.clone(), if k == "type" && x.is_string() { x.clone() } else { skeleton(x, false) })
+        }).collect()),
+    }
+}
+
+/// C06 coverage observation: every command (namespaces of the `AggregateStore`s) and every change set
+/// (write-ahead log of the repository content) stored since the previous call, as skeletons.
+#[allow(dead_code)]
+pub fn stored_since(storage: &StorageSystem, seen: &mut HashMap<String, u64>) -> Vec<Value> {
+    const NS: &[(&str, &str)] = &[
+        ("cas", "CertAuth"), ("ta_proxy", "TrustAnchorProxy"), ("ta_signer", "TrustAnchorSigner"), ("signer", "TrustAnchorSigner"),
+        ("pubd", "RepositoryAccess"), ("signers", "SignerInfo"), ("properties", "Properties"), ("pubd_objects", "RepositoryContent"),
+    ];
+    let mut out = vec![];
+    for (ns, agg) in NS {
+        let Ok(nsid) = Ident::boxed_from_string(ns.to_string()) else { continue };
+        let Ok(kv) = storage.open(&nsid) else { continue };
+        let wal = *ns == "pubd_objects";
+        let prefix = if wal { "wal-" } else { "command-" };
+        let mut scopes: Vec<Box<Ident>> = kv.scopes().unwrap_or_default();
+        scopes.sort_by_key(|s| s.as_str().to_string());
+        for sc in scopes {
+            let mut keys: Vec<(u64, Box<Ident>)> = kv.keys(Some(&sc), prefix).unwrap_or_default().into_iter().filter_map(|k| {
+                k.as_str().strip_prefix(prefix).and_then(|s| s.strip_suffix(".json")).and_then(|n| n.parse::<u64>().ok()).map(|n| (n, k))
+            }).collect();
+            keys.sort_by_key(|x| x.0);
+            let ent = format!("{ns}:{}", sc.as_str());
+            for (n, k) in keys {
+                if seen.get(&ent).map(|s| n <= *s).unwrap_or(false) { continue; }
+                seen.insert(ent.clone(), n);
+                let v: Value = kv.get(Some(&sc), &k).unwrap_or(None).unwrap_or(Value::Null);
+                if wal {
+                    let ch: Vec<Value> = v.get("changes").and_then(|c| c.as_array()).map(|a| a.iter().map(|x| skeleton(x, true)).collect()).unwrap_or_default();
+                    out.push(json!({"e": ent, "v": n, "agg": agg, "role": "change", "ch": ch}));
+                } else {
+                    let eff = v.get("effect").cloned().unwrap_or(Value::Null);
+                    let evs: Vec<Value> = eff.get("events").and_then(|c| c.as_array()).map(|a| a.iter().map(|x| skeleton(x, true)).collect()).unwrap_or_default();
+                    out.push(json!({
+                        "e": ent, "v": n, "agg": agg, "role": "command",
+                        "r": eff.get("result").and_then(|r| r.as_str()).unwrap_or("?"),
+                        "d": skeleton(v.get("details").unwrap_or(&Value::Null), true),
+                        "ev": evs,
+                        "init": eff.get("init").map(|x| skeleton(x, true)).unwrap_or(Value::Null),
+                    }));
+                }
+            }
+        }
+    }
+    out
 }
